@@ -1,6 +1,9 @@
 import Glom.Lemmas.C07
 import Glom.Lemmas.C03
+import Glom.Lemmas.C03Compose
+import Glom.Lemmas.C03Pure
 import Glom.Model.Frames
+import Glom.Spec.InterpFacts
 /-
   C03 — Auto-mode restructuring is compositional in its sub-specs.
 
@@ -15,44 +18,17 @@ set_option linter.unusedSectionVars false
 namespace Glom.Props.C03
 open Glom.Interp ScopeAlg
 
+/-- **facts obligation**: the decision logic of the interpreter core extracted from /repo on this
+    run has the shape the model mirrors (`Glom/Spec/InterpFacts.lean`) -/
+theorem c03_facts_wf : c03FactsWF = true := by decide
+
 variable {σ : Type} [ScopeAlg σ]
-
-/-- the evaluator is a pure function `f` of the target on sub-spec `s` (whatever the scope/state) -/
-def PureOn (rec : Rec σ) (s : Spec) (f : V → V) : Prop :=
-  ∀ t (sc : σ) st, ∃ c, rec s t sc st = (st, .ok (f t, c))
-
-/-- reference: map `f` over the items in order, STOP ends the list, SKIP omits the item -/
-def listRef (f : V → V) : List V → List V
-  | [] => []
-  | x :: xs => match f x with
-    | .stop => []
-    | .skip => listRef f xs
-    | v => v :: listRef f xs
-
-theorem listLoop_eq_ref (rec : Rec σ) (sub : Spec) (f : V → V) (h : PureOn rec sub f) (sc : σ) :
-    ∀ (items acc : List V) (st : St), listLoop rec sub sc items acc st = (st, .ok (acc ++ listRef f items)) := by
-  intro items
-  induction items with
-  | nil => intro acc st; simp [listLoop, listRef, M.pure_apply]
-  | cons x xs ih =>
-    intro acc st
-    obtain ⟨c, hc⟩ := h x sc st
-    simp only [listLoop, M.bind_apply, hc, listRef]
-    cases hf : f x <;> simp [ih, M.pure_apply]
 
 /-- **A list spec maps its sub-spec over the target's iteration, in order**; a sub-result of SKIP
     omits the entry and STOP ends the list. -/
 theorem c03_list (rec : Rec σ) (sub : Spec) (f : V → V) (h : PureOn rec sub f) (sc : σ) (items : List V) (st : St) :
     listLoop rec sub sc items [] st = (st, .ok (listRef f items)) := by
   simpa using listLoop_eq_ref rec sub f h sc items [] st
-
-/-- reference for a dict spec with literal keys: the same keys in the same order holding the
-    sub-results, entries whose sub-result is SKIP omitted (a repeated key keeps its first position) -/
-def dictRef (p : Prims) (t : V) : List (V × (V → V)) → List (V × V) → List (V × V)
-  | [], acc => acc
-  | (k, f) :: rest, acc => match f t with
-    | .skip => dictRef p t rest acc
-    | v => dictRef p t rest (dictSet p acc k v)
 
 /-- **A dict spec yields a dict with the same keys in the same order holding the sub-results.** -/
 theorem c03_dict (p : Prims) (rec : Rec σ) (t : V) (sc : σ) :
@@ -82,15 +58,6 @@ theorem c03_dict (p : Prims) (rec : Rec σ) (t : V) (sc : σ) :
       simp only [dictLoop, M.bind_apply, hc, dictRef, hck, hre]
       cases hf : f t <;> simp [hrest]
 
-/-- **A tuple feeds each step's result to the next**: one step of `_handle_tuple`. -/
-theorem c03_tuple_step (rec : Rec σ) (a : Spec) (rest : List Spec) (t : V) (cur : σ) (last : Option σ) :
-    tupleLoop rec (a :: rest) t cur last =
-      (do let r ← rec a t (nextScope cur last)
-          match r.1 with
-          | .skip => tupleLoop rec rest t (nextScope cur last) (some r.2)
-          | .stop => pure t
-          | nxt => tupleLoop rec rest nxt (nextScope cur last) (some r.2)) := rfl
-
 /-- **`glom(t, (a, b))` equals `glom(glom(t, a), b)`** when `a`'s result `v` is neither SKIP nor
     STOP: the tuple's value is whatever `b` yields on `v` (in the scope chained after `a`). -/
 theorem c03_chain (rec : Rec σ) (a b : Spec) (t v : V) (cur ca : σ) (st st1 : St)
@@ -108,10 +75,6 @@ theorem c03_chain (rec : Rec σ) (a b : Spec) (t v : V) (cur ca : σ) (st st1 : 
        cases r with
        | error e => rfl
        | ok wc => obtain ⟨w, c2⟩ := wc; cases w <;> rfl)
-
-/-- **Pipe(a, b, …) is the tuple (a, b, …)**: both run `_handle_tuple` on their own scope. -/
-theorem c03_pipe_eq_tuple (p : Prims) (rec : Rec σ) (xs : List Spec) (t : V) (sc : σ) :
-    glomit p rec (.pipe xs) t sc = (do let v ← autoFn p rec (.tuple xs) t sc; pure (v, sc)) := rfl
 
 /-- **Coalesce: the first non-skipped success wins and later alternatives are not evaluated** —
     the outcome does not mention (or run) anything after the winning alternative. -/
@@ -131,36 +94,12 @@ theorem c03_coalesce_skips (p : Prims) (rec : Rec σ) (t : V) (sc : σ) (sk : Sk
   simp only [coalesceLoop, M.bind_apply, M.attempt, hs]
   split <;> rfl
 
-/-- **Val, Spec, callables**: `Val(v)` is `v`; `Spec(s)` is `s`; a callable receives the current
-    target (and is logged once). -/
-theorem c03_val_spec_callable (p : Prims) (rec : Rec σ) (t v : V) (sc : σ) (s : Spec) (n k : String) :
-    glomit p rec (.val v) t sc = pure (v, sc) ∧
-    glomit p rec (.specW s []) t sc = (do let r ← rec s t sc; pure (r.1, sc)) ∧
-    autoFn p rec (.fn n k) t sc = callFn p n k [t] [] := ⟨rfl, rfl, rfl⟩
-
 /-- **Each container evaluates its sub-specs at its own scope**: the output is determined by the
     evaluator's behaviour on the sub-specs alone (see `c07_siblings_isolated`). -/
 theorem c03_determined_by_subspecs (p : Prims) (rec1 rec2 : Rec σ) (t : V) (sc : σ) (h : AgreeAt rec1 rec2 sc) :
     (∀ es acc, dictLoop p rec1 t sc es acc = dictLoop p rec2 t sc es acc) ∧
     (∀ sub items acc, listLoop rec1 sub sc items acc = listLoop rec2 sub sc items acc) :=
   ⟨dictLoop_congr p t sc h, fun sub => listLoop_congr sub sc h⟩
-
-/-- **Call combines its parts as documented**: `func`, `args`, `kwargs` are evaluated once each, in
-    that order, in argument position (containers rebuilt, T / Spec leaves replaced by their values,
-    callables kept); then the function is called once with the unpacked arguments. -/
-theorem c03_call_combines (p : Prims) (rec : Rec σ) (func args kwargs : Spec) (t : V) (sc : σ) :
-    glomit p rec (.call func args kwargs) t sc =
-      (do let f ← argVal rec t func sc
-          let a ← argVal rec t args sc
-          let kw ← argVal rec t kwargs sc
-          match f, kw with
-          | .fn n k, .dict _ kws =>
-            match starItems [a] with
-            | some as => do
-              let v ← callFn p n k as (strKeyed kws)
-              pure (v, sc)
-            | Option.none => M.fail (match a with | .set .. => "Unsupported" | _ => "TypeError")
-          | _, _ => M.fail "TypeError") := rfl
 
 /-- **Inspect is transparent**: debugging aside, `Inspect(s)` (no callbacks; what it echoes is not
     part of the result) evaluates `s` once, in its own scope, and yields its value or its exception —
@@ -170,16 +109,19 @@ theorem c03_inspect_transparent (p : Prims) (rec : Rec σ) (s : Spec) (t : V) (s
   apply M.ext; intro st
   simp only [glomit, callOpt, M.bind_apply, M.pure_apply, M.attempt, List.foldl_nil]
   rcases rec s t sc st with ⟨st1, r⟩
-  cases r <;> rfl
+  cases r with
+  | ok x => rfl
+  | error e => simp only; split <;> rfl
 
 /-- **Inspect's callbacks**: `breakpoint` is called once, without arguments, before the wrapped spec;
     when the wrapped spec raises, `post_mortem` is called once and the exception is re-raised (unless
-    `post_mortem` itself raises); when it succeeds `post_mortem` is not called. -/
+    `post_mortem` itself raises); when it succeeds `post_mortem` is not called.  (The model's own
+    "outside the modelled domain" markers are not exceptions of the program.) -/
 theorem c03_inspect_callbacks (p : Prims) (rec : Rec σ) (s : Spec) (bp pm : Option (String × String)) (t : V)
     (sc : σ) (st st0 st1 : St) (hbp : callOpt p bp st = (st0, .ok ())) :
     (∀ v c, rec s t sc st0 = (st1, .ok (v, c)) →
       glomit p rec (.inspect s bp pm) t sc st = (st1, .ok (v, sc))) ∧
-    (∀ e, rec s t sc st0 = (st1, .error e) →
+    (∀ e, rec s t sc st0 = (st1, .error e) → e.cls ≠ "Unsupported" → e.cls ≠ "OutOfFuel" →
       glomit p rec (.inspect s bp pm) t sc st =
         (match callOpt p pm st1 with
          | (st2, .ok _) => (st2, .error e)
@@ -187,25 +129,13 @@ theorem c03_inspect_callbacks (p : Prims) (rec : Rec σ) (s : Spec) (bp pm : Opt
   constructor
   · intro v c h
     simp only [glomit, M.bind_apply, hbp, M.attempt, h, M.pure_apply]
-  · intro e h
-    simp only [glomit, M.bind_apply, hbp, M.attempt, h]
+  · intro e h h1 h2
+    have hc : (e.cls == "Unsupported" || e.cls == "OutOfFuel") = false := by simp [h1, h2]
+    simp only [glomit, M.bind_apply, hbp, M.attempt, h, hc, Bool.false_eq_true, if_false]
     rcases callOpt p pm st1 with ⟨st2, r⟩
     cases r <;> rfl
 
 /-! ### nested chains: STOP ends the chain it occurs in, and only that one -/
-
-/-- reference for a chain of pure steps: each result feeds the next step, SKIP omits the step,
-    STOP ends the chain with the value reached so far -/
-def chainRef : List (V → V) → V → V
-  | [], t => t
-  | f :: fs, t => match f t with
-    | .skip => chainRef fs t
-    | .stop => t
-    | v => chainRef fs v
-
-def isSentinel : V → Bool
-  | .skip | .stop => true
-  | _ => false
 
 /-- **A tuple / Pipe of pure steps is `chainRef`** (any length, SKIP / STOP at any position). -/
 theorem c03_chain_ref (rec : Rec σ) :
@@ -230,18 +160,6 @@ theorem c03_chain_ref (rec : Rec σ) :
         simpa using this)
       simp only [tupleLoop, M.bind_apply, hc, chainRef]
       cases hf : f t <;> simp [hrest, M.pure_apply]
-
-/-- the result of a chain is never a sentinel (unless its input was one): STOP and SKIP are
-    consumed by the chain they occur in -/
-theorem chainRef_not_sentinel : ∀ (fs : List (V → V)) (t : V), isSentinel t = false →
-    isSentinel (chainRef fs t) = false := by
-  intro fs
-  induction fs with
-  | nil => intro t h; simpa [chainRef] using h
-  | cons f fs ih =>
-    intro t h
-    simp only [chainRef]
-    cases hf : f t <;> simp only <;> first | exact h | exact ih _ h | exact ih _ (by simp [isSentinel])
 
 /-- **A chain nested in a chain**: `glom(t, ((a₁, …, aₙ), b₁, …))` is `glom(glom(t, (a₁, …, aₙ)), (b₁, …))`
     — also when some `aᵢ` returned STOP: the inner chain ends there, its value goes on to the outer
@@ -274,14 +192,6 @@ interpreter itself satisfies this for, e.g., a callable in AUTO mode: see the ex
 of the interpreter are then the accumulator-free references `listRefM` / `dictRefM` / `chainRefM`
 of `Glom/Spec/C03.lean`, which run `g` exactly once per item / entry / step, in order, threading
 the state, and stop at the first exception with the state reached so far. -/
-
-/-- a pure evaluator is a special case (in every mode) -/
-theorem c03_pureOn_evalOn (rec : Rec σ) (s : Spec) (f : V → V) (h : PureOn rec s f) (m : Mode) (a : Bool) :
-    EvalOn rec m a s (fun t => pure (f t)) := by
-  intro t sc _ _
-  apply M.ext; intro st
-  obtain ⟨c, hc⟩ := h t sc st
-  rw [M.bind_apply, hc]
 
 /-- **A list spec over an effectful sub-spec**: the sub-spec runs once per item, in order, the state
     (call log, ScopeVars) threaded through; SKIP omits the item, STOP ends the list — nothing after
@@ -415,6 +325,7 @@ theorem c03_coalesce_stateful (p : Prims) (rec : Rec σ) (t : V) (sc : σ) (sk :
       | ok vc =>
         obtain ⟨v, c⟩ := vc
         simp only [hg, hrest]
+        rfl
 
 /-- the interpreter itself: in AUTO mode (not in argument position) a callable is an effectful
     sub-spec — the call is logged, then Python's part runs on the current target -/
@@ -424,10 +335,6 @@ theorem c03_callable_evalOn [LawfulScope σ] (p : Prims) (fuel : Nat) (n k : Str
   simp only [interp, Spec.isSpecLike, Bool.false_eq_true, if_false, LawfulScope.argMode_child,
     LawfulScope.mode_child, hm, ha, autoFn]
   simp
-
-/-- at scope `sc` the evaluator logs `L t` and yields `f t` on sub-spec `s` (e.g. an instrumented callable) -/
-def LoggedOn (rec : Rec σ) (s : Spec) (f : V → V) (L : V → List Ev) (sc : σ) : Prop :=
-  ∀ t st, ∃ c, rec s t sc st = ({ st with log := st.log ++ L t }, .ok (f t, c))
 
 /-- **The call log of a list spec**: the sub-spec's log entries of the items, in the order of the
     iteration, each item once, up to and including the first item that yields STOP — and the
@@ -473,6 +380,144 @@ theorem c03_coalesce_skip_nothing (p : Prims) (rec : Rec σ) (t : V) (sc : σ) (
   ⟨c03_coalesce_first_wins p rec t sc _ se s later st st1 st1 v c hs rfl,
    c03_coalesce_first_wins p rec t sc _ se s later st st1 st1 v c hs rfl⟩
 
+/-! ### arbitrary nestings, and the checker theorem
+
+`LogPure p n s f`: from fuel `n` on, the interpreter evaluates `s` — at every lawful scope in AUTO
+mode outside argument position, from every state — to the outcome `f t` (value or exception, and
+the events appended to the log), changing nothing else.  Instrumented callables, Val, T, paths
+are such leaves (`c03_leaf_*`).  `Comp` assembles specs of any depth and width from such leaves
+with tuple, Pipe, dict (literal and computed keys), list, Val, Spec, Auto; `c03_composition` shows
+that the interpreter evaluates the assembled spec to the outcome folded from the leaves' outcome
+functions by `chainF` / `dictF` / `listF` — "the output … is determined only by the outputs of its
+sub-specs", for arbitrary nestings in one theorem — and `c03_model_checks` that the model's
+observation passes the checker the driver evaluates on the implementation (`checkC03`: the outcome
+recomputed from *separately observed* leaf outcomes). -/
+
+/-- **Compositionality for arbitrary nestings**: the interpreter evaluates a spec assembled from
+    log-pure leaves to the outcome folded from the leaves' outcomes — value / exception *and* call
+    log (each leaf once, left to right) — whatever the scope shows and whatever the state. -/
+theorem c03_composition (p : Prims) (N : Nat) (h : Nat) (s : Spec) (f : V → Outcome) (hc : Comp p N h s f) :
+    LogPure p (N + h) s f := by
+  induction hc with
+  | leaf s f _ hl => exact hl
+  | up h s f _ ih => exact logPure_mono p _ _ s f ih (by omega)
+  | tuple h xfs _ ih =>
+    intro τ _ _ fuel hf
+    obtain ⟨fuel', rfl⟩ : ∃ k, fuel = k + 1 := ⟨fuel - 1, by omega⟩
+    refine (interp_tuple_pure p fuel' _ _ (by simp) ?_).1
+    intro i hi hj
+    simp only [List.length_map] at hi
+    simp only [List.getElem_map]
+    exact ih _ (List.getElem_mem hi) τ fuel' (by omega)
+  | pipe h xfs _ ih =>
+    intro τ _ _ fuel hf
+    obtain ⟨fuel', rfl⟩ : ∃ k, fuel = k + 1 := ⟨fuel - 1, by omega⟩
+    refine (interp_tuple_pure p fuel' _ _ (by simp) ?_).2
+    intro i hi hj
+    simp only [List.length_map] at hi
+    simp only [List.getElem_map]
+    exact ih _ (List.getElem_mem hi) τ fuel' (by omega)
+  | list h sub rest f _ ih =>
+    intro τ _ _ fuel hf
+    obtain ⟨fuel', rfl⟩ : ∃ k, fuel = k + 1 := ⟨fuel - 1, by omega⟩
+    exact interp_list_pure p fuel' sub rest f (ih τ fuel' (by omega))
+  | dict h o eds _ _ hck hlit ihv ihk =>
+    intro τ _ _ fuel hf
+    obtain ⟨fuel', rfl⟩ : ∃ k, fuel = k + 1 := ⟨fuel - 1, by omega⟩
+    refine interp_dict_pure p fuel' o _ _ (by simp) ?_
+    intro i hi hj
+    simp only [List.length_map] at hi
+    simp only [List.getElem_map, EntryOK]
+    have hmem := List.getElem_mem hi
+    refine ⟨ihv _ hmem τ fuel' (by omega), ?_⟩
+    cases hkf : eds[i].2.2.1 with
+    | none => exact hlit _ hmem hkf
+    | some g => exact ⟨hck _ hmem g hkf, ihk _ hmem g hkf τ fuel' (by omega)⟩
+  | val v =>
+    intro τ _ _ fuel hf
+    obtain ⟨fuel', rfl⟩ : ∃ k, fuel = k + 1 := ⟨fuel - 1, by omega⟩
+    exact interp_val_pure p fuel' v
+  | specW h s f _ ih =>
+    intro τ _ _ fuel hf
+    obtain ⟨fuel', rfl⟩ : ∃ k, fuel = k + 1 := ⟨fuel - 1, by omega⟩
+    exact (interp_specW_pure p fuel' s f (ih τ fuel' (by omega))).1
+  | auto h s f _ ih =>
+    intro τ _ _ fuel hf
+    obtain ⟨fuel', rfl⟩ : ∃ k, fuel = k + 1 := ⟨fuel - 1, by omega⟩
+    exact (interp_specW_pure p fuel' s f (ih τ fuel' (by omega))).2
+
+/-- **Checker theorem**: on every spec assembled from log-pure leaves — any depth, any width, SKIP /
+    STOP / exceptions anywhere — the model's observation of the whole spec passes `checkC03` with the
+    leaves observed by separate top-level calls of the model (the form the driver evaluates on the
+    implementation's observations). -/
+theorem c03_model_checks (p : Prims) (eqO : Outcome → Outcome → Bool) (heq : ∀ o, eqO o o = true)
+    (N h : Nat) (spec : Spec) (f : V → Outcome) (hc : Comp p N h spec f)
+    (F F' cf : Nat) (hF : N ≤ F) (hF' : N + h ≤ F') (hcf : h + 1 ≤ cf) (t : V) :
+    checkC03 p eqO (modelLeaf p F) cf spec t (observeTop p F' spec t) = true := by
+  simp only [checkC03, composeRef_of_comp p N F hF h spec f hc cf hcf [] t,
+    observeTop_of_logPure p (N + h) F' spec f (c03_composition p N h spec f hc) hF' t, heq]
+
+/-- leaves: an instrumented callable, `Val`, `T` -/
+theorem c03_leaf_callable (p : Prims) (n k : String) :
+    LogPure p 1 (.fn n k) (fun t => (p.applyFn k [t] [], [.call n [t]])) := by
+  intro τ _ _ fuel hf t sc st hm ha
+  obtain ⟨fuel', rfl⟩ : ∃ k, fuel = k + 1 := ⟨fuel - 1, by omega⟩
+  refine ⟨child sc, ?_⟩
+  simp only [interp, Spec.isSpecLike, Bool.false_eq_true, if_false, LawfulScope.argMode_child,
+    LawfulScope.mode_child, hm, ha, autoFn, callFn, M.bind_apply, M.logEv, M.lift, addLog]
+  cases p.applyFn k [t] [] <;> rfl
+
+theorem c03_leaf_t (p : Prims) (steps : List (String × V)) :
+    LogPure p 1 (.t steps) (fun t => (p.tEval steps t, [])) := by
+  intro τ _ _ fuel hf t sc st hm ha
+  obtain ⟨fuel', rfl⟩ : ∃ k, fuel = k + 1 := ⟨fuel - 1, by omega⟩
+  refine ⟨setArgMode (child sc) false, ?_⟩
+  simp only [interp, Spec.isSpecLike, if_true, glomit, M.bind_apply, M.lift, addLog_nil]
+  cases p.tEval steps t <;> rfl
+
+/-- **`glom(t, (a, b))` equals `glom(glom(t, a), b)`** — two separate top-level calls — for specs
+    assembled from log-pure leaves (in particular: no scope binder or reader, see the counter-example
+    below), when `a`'s result is neither SKIP nor STOP: same value or exception, and the call log of
+    the tuple is `a`'s followed by `b`'s (a SKIP / STOP result of `b` leaves `a`'s result). -/
+theorem c03_two_calls (p : Prims) (N h : Nat) (a b : Spec) (fa fb : V → Outcome)
+    (ha : Comp p N h a fa) (hb : Comp p N h b fb) (F : Nat) (hF : N + (h + 1) ≤ F) (t v : V)
+    (hv : (observeTop p F a t).1 = .ok v) (hns : isSentinel v = false) :
+    (observeTop p F (.tuple [a, b]) t).1 =
+      (match (observeTop p F b v).1 with
+       | .ok .skip => .ok v          -- the tuple keeps `a`'s result when `b` yields SKIP / STOP
+       | .ok .stop => .ok v
+       | r => r) ∧
+    (observeTop p F (.tuple [a, b]) t).2 = (observeTop p F a t).2 ++ (observeTop p F b v).2 := by
+  have hA := observeTop_of_logPure p (N + h) F a fa (c03_composition p N h a fa ha) (by omega)
+  have hB := observeTop_of_logPure p (N + h) F b fb (c03_composition p N h b fb hb) (by omega)
+  have hT := observeTop_of_logPure p (N + (h + 1)) F _ _
+    (c03_composition p N (h + 1) _ _ (Comp.tuple h [(a, fa), (b, fb)] (by
+      intro xf hxf
+      simp only [List.mem_cons, List.not_mem_nil, or_false] at hxf
+      rcases hxf with rfl | rfl
+      · exact ha
+      · exact hb))) hF t
+  simp only [List.map_cons, List.map_nil] at hT
+  rw [hT, hA t, hB v]
+  rw [hA t] at hv
+  simp only [chainF]
+  rcases hfa : fa t with ⟨r, l⟩
+  rw [hfa] at hv
+  simp only at hv
+  subst hv
+  rcases hfb : fb v with ⟨r2, l2⟩
+  cases v <;> simp_all [isSentinel, Outcome.after] <;>
+    (cases r2 with
+     | error e => simp
+     | ok w => cases w <;> simp)
+
+/-- **A dict spec yields a dict of the same type** (dict / OrderedDict) with, for literal keys, the
+    keys of the spec in the order of the spec (`dictF`: `dictSet` appends in spec order; a SKIP value
+    omits the entry; a computed key is evaluated after its value). -/
+theorem c03_dict_same_type (p : Prims) (o : Bool) (t : V) (ds : List (V × Option (V → Outcome) × (V → Outcome)))
+    (v : V) (h : (dictF p o t ds []).1 = .ok v) : ∃ kvs, v = .dict o kvs :=
+  dictF_is_dict p o t ds [] v h
+
 /-! ### non-vacuity -/
 example : listRef (fun v => match v with | .int 2 => .skip | .int 4 => .stop | v => v)
     [.int 1, .int 2, .int 3, .int 4, .int 5] = [.int 1, .int 3] := by rfl
@@ -508,5 +553,21 @@ example :
     let boom : V → M V := fun _ => do M.logEv (.call "boom" []); M.fail "ValueError"
     let never : V → M V := fun v => do M.logEv (.call "never" []); pure v
     ((chainRefM [boom, never] (.int 1) {}).1.log.length = 1) := by rfl
+
+/-- `Comp` is inhabited by nested specs: `(f, [g])` over instrumented callables -/
+example (p : Prims) : ∃ fn, Comp p 1 2 (.tuple [.fn "f" "k", .list [.fn "g" "k2"]]) fn :=
+  ⟨_, Comp.tuple 1 [(.fn "f" "k", _), (.list [.fn "g" "k2"], _)] (by
+    intro xf hxf
+    simp only [List.mem_cons, List.not_mem_nil, or_false] at hxf
+    rcases hxf with rfl | rfl
+    · exact Comp.up 0 _ _ (Comp.leaf _ _ rfl (c03_leaf_callable p "f" "k"))
+    · exact Comp.list 0 _ [] _ (Comp.leaf _ _ rfl (c03_leaf_callable p "g" "k2")))⟩
+
+/-- the binder-free hypothesis of `c03_two_calls` is forced: `glom(1, (Ref('r', T), Ref('r')))` is 1,
+    while the second step alone, as a separate call on the first step's result, raises -/
+example :
+    isOkInt (glomTop trivPrims 8 (.tuple [.ref "r" (some (.t [])), .ref "r" Option.none]) (.int 1) [] {}) 1 = true ∧
+    isErr (glomTop trivPrims 8 (.ref "r" Option.none) (.int 1) [] {}) "KeyError" = true := by
+  constructor <;> decide
 
 end Glom.Props.C03
